@@ -64,9 +64,21 @@ func runOne(c *core.Ctx, name string, wl sx.Workload, keep int, seed int64, sett
 	}
 	rng := rand.New(rand.NewSource(seed))
 	r.Think = 2 * time.Millisecond
+	r.SetHolds(sx.DefaultHolds) // e.g. a batch introduced while the persister's in-memory merge is in flight
+	reopenAt := -1
+	if seed%3 == 1 {
+		reopenAt = len(wl.Batches) / 2 // a restart in the middle of the history
+	}
 	// single writer here: batches in order, with occasional settling so that
 	// several distinct states get persisted and retained
-	for _, bs := range wl.Batches {
+	for bi, bs := range wl.Batches {
+		if bi == reopenAt {
+			r.Quiesce(20 * time.Second)
+			if err := r.Reopen(); err != nil {
+				_ = r.Close()
+				return nil, fmt.Errorf("%s: reopen: %v", name, err)
+			}
+		}
 		if _, err := r.Submit(bs); err != nil {
 			_ = r.Close()
 			return nil, err
